@@ -556,6 +556,19 @@ def rule_lp4(prog, rep, units, rid='LP4'):
                             b = strip(children(b)[0])
                         if b.get('kind') == 'DeclRefExpr':
                             derived.add(canon(b))
+            # ... and records filled in by a helper that also receives a per-level value (`_init_cbdata(cbdata, id, parent)`)
+            for _round in range(2):
+                for y in walk(f.body):
+                    if y.get('kind') == 'CallExpr' and prog.callee_name(y) in funcs:
+                        args = children(y)[1:]
+                        if any(_reads(a)[0] & derived for a in args):
+                            for a in args:
+                                sa = strip(a)
+                                if sa.get('kind') == 'UnaryOperator' and sa.get('opcode') == '&':
+                                    sa = strip(children(sa)[0])
+                                if sa.get('kind') == 'DeclRefExpr' and (sa.get('_ref') or ('',))[0] == 'local' and \
+                                        ((qtype(sa) or '').rstrip().endswith('*') or sa is not strip(a)):
+                                    derived.add(canon(sa))
             rec = [n for n in cfg.nodes if n.id in cfg.reachable and isinstance(n.ast, dict) and n.kind != 'macro' and any(
                 y.get('kind') == 'CallExpr' and prog.callee_name(y) in funcs and
                 (prog.callee_name(y) == nm or reaches(prog.callee_name(y), nm)) for y in walk(n.ast))]
